@@ -469,6 +469,24 @@ func (c *ctx) allocFree(us []*universe.UStruct, n int) {
 					break
 				}
 			}
+			if i == 0 {
+				// "after first use", however long ago: the pooled scratch values are dropped after two
+				// garbage collections; a pointer call must not need them
+				idle := uint64(1)
+				for try := 0; try < 3 && idle > 0; try++ {
+					runtime.GC()
+					runtime.GC()
+					runtime.GC()
+					idle = mallocsDuring(func() {
+						frugal.EncodedSize(arg)
+						frugal.EncodeObject(buf, nil, arg)
+					})
+				}
+				c.h.stats["alloc_idle_measured"]++
+				if idle > 0 {
+					c.h.oracle("C18", fmt.Sprintf("heap allocations on the first pointer calls after the type was idle for three garbage collections: %d (3 attempts, all > 0) sid=%d val=%s", idle, u.Sid, clip(showValue(p.Elem()))))
+				}
+			}
 			c.h.stats["alloc_measured"]++
 			c.h.emit(fmt.Sprintf("alloc %d -> %d %d", u.Sid, ms/reps, me/reps))
 			if ms >= reps || me >= reps {
